@@ -162,3 +162,22 @@ def in_c09_domain(g):
                 and isinstance(g["transition_list"], list))
     except Exception:  # noqa
         return False
+
+
+def measure_dev(ctx, key, field_impl, field_model):
+    """comparator factory for the EXACT (rational) instantiation of the model: never a
+    disagreement, only measures |float run - exact run| and records the maximum in the evidence"""
+    def f(expect, r):
+        try:
+            if expect.get("outcome") == "ok" and r.get("outcome") == "ok":
+                a = expect[field_impl] if not isinstance(field_impl, int) else expect["res"][field_impl]
+                b = [Fr(s) for s in r[field_model]]
+                d = max((abs(Fr(x) - y) for x, y in zip(a, b)), default=Fr(0))
+                ctx.extra[key] = max(ctx.extra.get(key, 0.0), float(d))
+                ctx.extra[key + "_cases"] = ctx.extra.get(key + "_cases", 0) + 1
+            elif expect.get("outcome") != r.get("outcome"):
+                ctx.extra[key + "_outcome_differs"] = ctx.extra.get(key + "_outcome_differs", 0) + 1
+        except Exception:  # noqa
+            pass
+        return None
+    return f
